@@ -457,5 +457,8 @@ def run(tier):
         return v.finish(cov, assumptions)
     finally:
         if pool is not None:
+            pids = cfspec.worker_pids(pool)
             pool.terminate()
+            pool.join()
+            cfspec.cleanup_workers(pids)
         shutil.rmtree(d, ignore_errors=True)
